@@ -847,6 +847,39 @@ func TestC04_Sweep(t *testing.T) {
 			pre := fmt.Sprintf("%s/v%d/", p, variant)
 			base := mk()
 			run(p, base, base.WireNode(), nil, "")
+			// rule-level sweep on the wire: every byte-string claim and
+			// component field at every length 0..80 and a few larger ones
+			if variant == 1 {
+				for _, n := range append(seqInts(0, 80), 96, 128, 255, 256, 288) {
+					buf := make([]byte, n)
+					for i := range buf {
+						buf[i] = byte(7*n + i)
+					}
+					for _, which := range []string{"impl", "boot", "nonce", "inst", "comp.value", "comp.signer"} {
+						m := mk()
+						switch which {
+						case "impl":
+							m.ImplID = bp(buf)
+						case "boot":
+							m.BootSeed = bp(buf)
+						case "nonce":
+							ns := [][]byte{buf}
+							m.Nonces = &ns
+						case "inst":
+							b := append([]byte{}, buf...)
+							if n > 0 {
+								b[0] = 1
+							}
+							m.InstID = bp(b)
+						case "comp.value":
+							m.Comps[len(m.Comps)-1].Value = bp(buf)
+						default:
+							m.Comps[0].Signer = bp(buf)
+						}
+						run(p, m, m.WireNode(), nil, fmt.Sprintf("%slen/%s/%d", pre, which, n))
+					}
+				}
+			}
 			nT := len(targetsOf(p, base.WireNode()))
 			for ti := 0; ti < nT; ti++ {
 				for _, kind := range c04Kinds {
@@ -885,4 +918,12 @@ func TestC04_Sweep(t *testing.T) {
 			run(p, m, root, nil, pre+"reversed")
 		}
 	}
+}
+
+func seqInts(a, b int) []int {
+	var r []int
+	for i := a; i <= b; i++ {
+		r = append(r, i)
+	}
+	return r
 }
